@@ -68,6 +68,18 @@ CLAIMED = {
          "These forbid the causes of aliasing/double release on all paths; the run-time effect (pool reuse timing) is not observed. Leaks are deliberately not reported.",
          "Assumes the interface contracts the analysis itself checks on every implementation (TranPipe.Send / ProtocolPipe.SendMsg consume iff they return nil).",
          "DESIGN.md 4/C17, 3.4 E5, Appendix D"),
+ "C01": ("static analysis: table/AST rules for the pool, anchored shape rules and path-condition predicates for framing and the receive limit, emission-order extraction for stream/websocket/inproc sends, buffer-bound dataflow (E6d)",
+         "Decides the structural necessary conditions of whole, byte-identical delivery for every body length: every pool class allocates at least its class size and NewMessage/Free select classes consistently; stream frames carry BE-uint64(len(Header)+len(Body)) then Header then Body and are read with complete reads into Body[0:sz] of a message allocated with that sz; "
+         "the receive limit is inclusive (sz == limit delivered, 0 unlimited) and checked before allocation; websocket sends one binary frame Header‖Body; inproc queues a fresh copy; the []byte API copies all bytes in and out before release. "
+         "Byte equality through the kernel, crypto/tls and gorilla/websocket, and every size x pattern end-to-end, is not decided.",
+         "Trusts io.ReadFull/binary.Read (complete reads), net.Buffers.WriteTo (all segments, in order) and gorilla's one-frame WriteMessage/ReadMessage.",
+         "DESIGN.md 4/C01, 3.4 E8,E9"),
+ "C15": ("static analysis: symbolic wire image from types.Struct + literal + byte order (E8a), path-condition predicate tables (E6b), constant tables across packages (E9), emission-order extraction (E8b/c), who-may-call",
+         "The handshake bytes are 00 'S' 'P' 00 <Self BE16> 00 00 by construction of the struct layout, literal and byte order (sent before reading); a handshake succeeds iff all six fields have their required value (all assignments of a finite domain), failures close the connection and are never reported as ErrClosed; "
+         "all protocol packages carry the SP numbers/names with mutual peers; stream framing and the IPC type byte are as specified and read with complete reads; websocket uses binary frames and the <name>.sp.nanomsg.org sub-protocols on both sides; only the handshaker's worker runs the handshake. "
+         "Interoperability against an independent implementation on real sockets and the TLS/HTTP upgrade bytes (library code) are not decided.",
+         "Rules are anchored in transport/conn*.go, transport/ws/ws.go and the protocol constant blocks (ANCHOR-MISSING fails closed).",
+         "DESIGN.md 4/C15, 3.4 E8,E9"),
 }
 
 NOT_YET = "check not built yet (work in progress; planned static rules in DESIGN.md section 4)"
